@@ -546,10 +546,22 @@ pub fn swap_statements(p: &Program) -> Vec<Step> {
 pub fn extract_module(p: &Program) -> Vec<Step> {
     let mut out = Vec::new();
     let main = &p.modules[0];
-    // Only for programs whose main has no import yet (keeps name spaces simple).
-    if main.stmts.iter().any(|s| matches!(s, Stmt::Use(..))) || p.modules.iter().any(|m| m.name == "zx.oal") {
+    // For programs whose main has no import yet, or only the import created by a first
+    // extraction (a second group can then go to a second module).
+    let prior: Vec<&Stmt> = main.stmts.iter().filter(|s| matches!(s, Stmt::Use(..))).collect();
+    let (file, qual) = match prior.len() {
+        0 => ("zx.oal", "zx"),
+        1 if matches!(prior[0], Stmt::Use(p, _) if p == "zx.oal") && !p.modules.iter().any(|m| m.name == "zy.oal") => ("zy.oal", "zy"),
+        _ => return out,
+    };
+    if p.modules.iter().any(|m| m.name == file) {
         return out;
     }
+    // Declarations that use something of an existing import stay where they are.
+    let imported_names: Vec<String> = p.modules.iter().skip(1).flat_map(|m| m.stmts.iter()).filter_map(|s| match s {
+        Stmt::Let { name, .. } => Some(name.clone()),
+        _ => None,
+    }).collect();
     let decls: Vec<(usize, &String, BTreeSet<String>)> = main
         .stmts
         .iter()
@@ -576,9 +588,12 @@ pub fn extract_module(p: &Program) -> Vec<Step> {
         let closed = chosen.iter().all(|&i| {
             decls[i].2.iter().all(|f| match names.iter().position(|n| *n == f) {
                 Some(j) => chosen.contains(&j),
-                None => true,
+                None => !imported_names.contains(f),
             })
-        });
+        }) && chosen.iter().all(|&i| !has_qualified(match &main.stmts[decls[i].0] {
+            Stmt::Let { body, .. } => body,
+            _ => unreachable!(),
+        }));
         if !closed {
             continue;
         }
@@ -593,11 +608,11 @@ pub fn extract_module(p: &Program) -> Vec<Step> {
                 .filter(|(i, _)| !chosen.iter().any(|&c| decls[c].0 == *i))
                 .map(|(_, s)| s.clone())
                 .collect();
-            let mut stmts = vec![Stmt::Use("zx.oal".into(), if qualified { Some("zx".into()) } else { None })];
+            let mut stmts = vec![Stmt::Use(file.into(), if qualified { Some(qual.into()) } else { None })];
             stmts.extend(keep);
             q.modules[0].stmts = stmts;
             q.modules.push(Module {
-                name: "zx.oal".into(),
+                name: file.into(),
                 stmts: moved.clone(),
             });
             if qualified {
@@ -608,7 +623,7 @@ pub fn extract_module(p: &Program) -> Vec<Step> {
                     continue;
                 }
                 // Unqualified uses in main are now unbound: add the qualifier by AST rewrite.
-                q.modules[0] = qualify(&q.modules[0], &moved_names, "zx");
+                q.modules[0] = qualify(&q.modules[0], &moved_names, qual);
             }
             out.push(Step {
                 rule: if qualified {
@@ -621,6 +636,10 @@ pub fn extract_module(p: &Program) -> Vec<Step> {
         }
     }
     out
+}
+
+fn has_qualified(e: &E) -> bool {
+    matches!(e, E::Var(Some(_), _) | E::App(Some(_), _, _)) || children(e).into_iter().any(has_qualified)
 }
 
 fn qualify(m: &Module, names: &[String], q: &str) -> Module {
